@@ -38,6 +38,9 @@ structure JSt where
 def applySetup (c : Cluster) (cmds : List (List String)) : Cluster :=
   cmds.foldl (fun c t => (Driver.setup c t).getD c) c
 
+/-- the store a client configured with this offset storage reads and writes -/
+def storeKey (storage : String) (g : Bytes) : Bytes := storeGroup (if storage == "zk" then 0 else 1) g
+
 def framesOf (op : OpRec) : List (Bytes × Spec.Request) :=
   op.evs.filterMap fun e => match e with
     | .req h f _ => (Spec.parseFrame f).map fun r => (h, r)
@@ -390,6 +393,7 @@ def dedupB (xs : List Bytes) : List Bytes := xs.foldl (fun acc x => if acc.conta
 def judgeC10 (ops : List OpRec) : List String :=
   let s := ops.foldl (fun (s : JSt) op =>
     let s := { s with cluster := applySetup s.cluster op.setup }
+    let s := trackSettings s op
     let c := s.cluster
     let faulty := !c.faults.all (·.count == 0) || op.evs.any (fun e => match e with | .io _ _ => true | .connect _ ok => !ok | _ => false)
     let s := match op.toks with
@@ -423,7 +427,7 @@ def judgeC10 (ops : List OpRec) : List String :=
       match fromHex g, parseTP args with
       | some g, some tps =>
         let lookup (t : Bytes) (p : Int) : Int :=
-          match c.groups.find? (fun (e : (Bytes × Bytes × Int) × Int) => e.1 == (g, t, p)) with
+          match c.groups.find? (fun (e : (Bytes × Bytes × Int) × Int) => e.1 == (storeKey s.storage g, t, p)) with
           | some e => e.2
           | none => -1
         let want : List (Bytes × List (Int × Int)) := (dedupB (tps.map fun (x : Bytes × Int) => x.1)).map fun t =>
@@ -885,6 +889,8 @@ structure J07 where
   /-- expected first fetch offset per (topic, partition) of the consumer just created; `none` = not judged -/
   expect : List ((Bytes × Int) × Int) := []
   pending : Bool := false
+  /-- the offset storage set on the scenario's client (a consumer built from it inherits it unless the builder says otherwise) -/
+  clientStorage : String := "none"
   out : List String := []
 
 def judgeC07 (ops : List OpRec) : List String :=
@@ -894,9 +900,11 @@ def judgeC07 (ops : List OpRec) : List String :=
     let s := { s with cluster := applySetup s.cluster op.setup }
     let c := s.cluster
     let s := match op.toks with
-    | "consumer_create" :: _ :: opts =>
+    | "client_new" :: _ => { s with clientStorage := "none" }
+    | ["c", "set", "storage", x] => { s with clientStorage := x }
+    | "consumer_create" :: from_ :: opts =>
       let group := ((lastOpt opts "group").bind fromHex).getD []
-      let storage := (lastOpt opts "storage").getD "none"
+      let storage := (lastOpt opts "storage").getD (if from_ == "client" then s.clientStorage else "none")
       let fb := (lastOpt opts "fallback").getD "latest"
       let topics : List Bytes := opts.filterMap fun o => let (k, x) := kv o; if k == "topic" then fromHex x else none
       let parts : List (Bytes × Int × PartState) := topics.flatMap fun t =>
@@ -905,7 +913,7 @@ def judgeC07 (ops : List OpRec) : List String :=
         | none => []
       let committed (t : Bytes) (p : Int) : Option Int :=
         if group.isEmpty || storage == "none" then none else
-        match c.groups.find? (fun (e : (Bytes × Bytes × Int) × Int) => e.1 == (group, t, p)) with
+        match c.groups.find? (fun (e : (Bytes × Bytes × Int) × Int) => e.1 == (storeKey storage group, t, p)) with
         | some e => if e.2 == -1 then none else some e.2
         | none => none
       let fbOff (p : PartState) : Option Int :=
@@ -1521,7 +1529,7 @@ def judgeC08 (ops : List OpRec) : List String :=
       let storage := (lastOpt opts "storage").getD "none"
       -- a new consumer of the group starts from what the coordinator has stored: marks = stored - 1, clean
       let marks : List ((Bytes × Int) × (Int × Bool)) := c.groups.filterMap fun (e : (Bytes × Bytes × Int) × Int) =>
-        if e.1.1 == group && e.2 != -1 && !group.isEmpty && storage != "none" then some ((e.1.2.1, e.1.2.2), (e.2 - 1, false)) else none
+        if e.1.1 == storeKey storage group && e.2 != -1 && !group.isEmpty && storage != "none" then some ((e.1.2.1, e.1.2.2), (e.2 - 1, false)) else none
       { s with group := group, storage := storage, marks := marks }
     | ["consumer_drop"] => { s with marks := [] }
     | ["consume", t, p, o] =>
@@ -1560,7 +1568,7 @@ def judgeC08 (ops : List OpRec) : List String :=
         -- after this operation's requests) holds mark + 1 for every partition that had changed
         let after := evolve s.cluster op
         let s := dirty.foldl (fun (s : J08) (x : (Bytes × Int) × (Int × Bool)) =>
-          let stored := (after.groups.find? fun (g : (Bytes × Bytes × Int) × Int) => g.1 == (s.group, x.1.1, x.1.2)).map (fun (g : (Bytes × Bytes × Int) × Int) => g.2)
+          let stored := (after.groups.find? fun (g : (Bytes × Bytes × Int) × Int) => g.1 == (storeKey s.storage s.group, x.1.1, x.1.2)).map (fun (g : (Bytes × Bytes × Int) × Int) => g.2)
           if stored == some (x.2.1 + 1) then s
           else v s "C08-commit-not-stored" op s!"commit returned ok, but the coordinator holds {stored} for {toHexTok x.1.1}/{x.1.2}; the mark is {x.2.1}") s
         { s with marks := s.marks.map fun (x : (Bytes × Int) × (Int × Bool)) => (x.1, (x.2.1, false)) }
